@@ -99,6 +99,27 @@ def random_order(rng, k=None, kmax=8):
     return rng.choice(ORDERS)(rng, k)
 
 
+def covers_of(m):
+    k = len(m)
+    return [(a, b) for a in range(k) for b in range(k) if a != b and m[a][b] and
+            not any(c not in (a, b) and m[a][c] and m[c][b] for c in range(k))]
+
+
+def alt_orders(rng, m):
+    """Other partial orders on the same carriers: [equal copy (a different object), a proper
+    sub-relation, a super-relation, an unrelated order]; entries may coincide with m for tiny m."""
+    k = len(m)
+    cov = covers_of(m)
+    sub = closure(k, [e for e in cov if rng.random() < 0.6])
+    topo = sorted(range(k), key=lambda x: (sum(m[y][x] for y in range(k)), rng.random()))
+    extra = [(topo[i], topo[j]) for i in range(k) for j in range(i + 1, k) if rng.random() < 0.3]
+    sup = closure(k, cov + extra)
+    perm = list(range(k))
+    rng.shuffle(perm)
+    other = [[m[perm[a]][perm[b]] for b in range(k)] for a in range(k)]
+    return [[list(r) for r in m], sub, sup, other]
+
+
 def is_partial_order(m):
     k = len(m)
     for a in range(k):
